@@ -495,6 +495,9 @@ LocksConsistent ==
 
 \* insert and topic association are one transaction: never one without the other
 StoredIsAssociated == \A o \in stored : <<o.tp, o.a>> \in assoc
+\* (the name the publish crash sweep of the harness refers to; holds because ForgeCommit and the
+\* ingest of PipelineProcess are single transactions)
+StoredImpliesAssociated == StoredIsAssociated
 
 \* logs have no gaps above their pruned prefix (forge and in-order ingest)
 LowSeq(a, tp) == CHOOSE x \in {o.seq : o \in LogOps(stored, a, tp)} : \A o \in LogOps(stored, a, tp) : x <= o.seq
